@@ -16,7 +16,9 @@ import AspireModel.Props.C06
 import AspireModel.Props.C07
 import AspireModel.Props.C08
 import AspireModel.Props.C09
+import AspireModel.Props.C10
 import AspireModel.Props.C11
 import AspireModel.Props.C12
 import AspireModel.Props.C16
+import AspireModel.Props.C17
 import AspireModel.Props.C18
